@@ -132,14 +132,27 @@ def run_parallel(fn, jobs, nchunks=None):
     return [r for c in res for r in c]
 
 
-def confirm_replay(path):
-    """run a replay script in a pristine interpreter; True if it reproduces (exit code 1)"""
-    try:
-        p = subprocess.run([common.PY, "-W", "ignore", path], capture_output=True, text=True, timeout=300,
-                           env=dict(os.environ, PYTHONDONTWRITEBYTECODE="1"))
-    except subprocess.TimeoutExpired:
-        return False, "timeout"
-    return p.returncode == 1, (p.stdout + p.stderr)[-2000:]
+def confirm_replay(path, seeds=(None, 1, 2, 3, 4, 5, 6, 7, 8, 9, 10, 11, 12, 13, 14, 15, 16)):
+    """run a replay script in a pristine interpreter; True if it reproduces (exit code 1).  A violation that depends on
+    the iteration order of a hash-randomised set may need a particular PYTHONHASHSEED: further seeds are tried."""
+    outp = ""
+    for sd in seeds:
+        env = dict(os.environ, PYTHONDONTWRITEBYTECODE="1")
+        if sd is not None:
+            env["PYTHONHASHSEED"] = str(sd)
+        try:
+            p = subprocess.run([common.PY, "-W", "ignore", path], capture_output=True, text=True, timeout=300, env=env)
+        except subprocess.TimeoutExpired:
+            return False, "timeout"
+        outp = (p.stdout + p.stderr)[-2000:]
+        if p.returncode == 1:
+            if sd is not None:
+                with open(path, "a") as fh:
+                    fh.write("\n# reproduces with PYTHONHASHSEED=%d\n" % sd)
+            return True, outp
+        if p.returncode != 0:
+            return False, outp
+    return False, outp
 
 
 MAX_REPORTED = 6
